@@ -235,3 +235,7 @@ def dimspec(lo, hi, nolo=False):
 def flit(t, w, f, neg=False):
     """fractional constant +-(w + f/10), f in 1..9 except 5"""
     return {"k": "flit", "t": t, "w": w, "f": f, "neg": neg}
+
+
+def cref(n, sfx=""):
+    return {"k": "cref", "n": n, "sfx": sfx}
